@@ -228,7 +228,7 @@ class C06(Spec):
             return s.get("handed", "0") != "0" or any(c.startswith("E|") and "|a" in c for c in case[4:]) or \
                 any(c.startswith("X|") or c == "C" for c in case[4:])
         if op == "encinto":
-            return s.get("moved") == "1" or case[2] != "-" or case[4][:1] in "jqkFG"
+            return s.get("moved") == "1" or case[2] != "-" or case[4][:1] in "jqkFGTW"
         if op == "htmlesc":
             return not html_clean(_hx(case[3]))
         if op == "alias":
